@@ -94,6 +94,19 @@ fn scenarios() -> Vec<Scenario> {
         order: 3,
         ..sc("S7d-siqs-rot", "C04", N40, Algo::Siqs, 2, "items claimed in rotated order")
     });
+    // sparse determinant with a pool: n names a fixed matrix; result = (|det|, sign marker)
+    v.push(sc("S9-detz-8", "C19", "detz:8", Algo::Auto, 2, "SparseMat::detz with a pool: two chunks of four moduli reconstructed in both arrival orders; done flag vs late writers"));
+    v.push(sc("S9b-detz-12", "C19", "detz:12", Algo::Auto, 2, "three chunks, two workers: the CRT is accepted when two successive reconstructions agree, in every arrival order"));
+    // class group: n holds the discriminant (negative); the result is (h, cyclic factors)
+    v.push(sc("S8-cls-2w", "C04 C18", "-17179869263", Algo::Auto, 2, "classgroup(D, pool of 2): workers take different A values, share the relation set and the done flag"));
+    v.push(Scenario {
+        use_double: Some(true),
+        ..sc("S8b-cls-dlp", "C04 C18", "-17179869263", Algo::Auto, 2, "classgroup with forced double large primes: spanning tree of large primes updated in arrival orders no sequential run produces")
+    });
+    v.push(Scenario {
+        order: 1,
+        ..sc("S8c-cls-rev", "C04 C18", "-1099511627803", Algo::Auto, 2, "classgroup, D = 5 mod 8, items claimed in reverse order")
+    });
     v.push(sc("S10-auto-2w", "C04", "618970019643974367030804893", Algo::Auto, 2, "automatic mode with a pool (trial division, then ecm/siqs with threads)"));
     // C05 (b): abort flag flipped by another thread at every possible point
     v.push(Scenario {
@@ -145,7 +158,86 @@ fn res_str(r: &Res) -> String {
     }
 }
 
+/// Canonical description of a class group result: h followed by the sorted prime powers of
+/// the cyclic factors (the presentation may differ between runs, the group may not).
+fn cls_result(g: &yamaquasi::relationcls::ClassGroup) -> Vec<Uint> {
+    let mut v = vec![g.h];
+    let mut pp: Vec<u128> = vec![];
+    for &d in &g.invariants {
+        let mut x = d;
+        let mut p = 2u128;
+        while p * p <= x {
+            if x % p == 0 {
+                let mut q = 1;
+                while x % p == 0 {
+                    x /= p;
+                    q *= p;
+                }
+                pp.push(q);
+            }
+            p += 1;
+        }
+        if x > 1 {
+            pp.push(x);
+        }
+    }
+    pp.sort_unstable();
+    v.extend(pp.into_iter().map(|x| Uint::from_str(&x.to_string()).unwrap()));
+    v
+}
+
+const M8: [[i32; 8]; 8] = [
+    [3, 13, 0, -26, -1, 1, 28, -11],
+    [-3, 0, -1, 12, 2, -7, -1, 1],
+    [-3, -4, -1, 14, 2, -4, -9, 3],
+    [4, -8, 0, 0, 0, 10, -13, 4],
+    [0, -9, -2, 12, 2, 3, -15, 5],
+    [-5, -13, -1, 28, 2, -3, -28, 10],
+    [3, -3, 1, 8, -2, 6, -5, 7],
+    [-2, -13, 0, 25, 0, 1, -27, 12],
+];
+const M12: [[i32; 12]; 12] = [
+    [8, 0, 11, -14, -2, -3, 7, 1, -10, 13, 11, 6],
+    [11, 4, 15, -25, -1, -5, 5, -1, -31, 35, 30, 7],
+    [1, -1, -2, 0, -1, -1, 1, 1, 1, -3, 2, 1],
+    [6, 2, 7, -9, -2, -3, 3, 0, -10, 12, 11, 5],
+    [0, 0, 0, 0, 1, 0, 0, 0, -2, 1, 2, -1],
+    [5, 2, 9, -7, 0, -2, 5, -1, -6, 9, 6, 3],
+    [12, 4, 19, -16, -1, -5, 8, -1, -19, 25, 18, 8],
+    [-6, -1, -6, 9, 1, 3, -3, 0, 11, -12, -12, -4],
+    [3, 4, 7, -5, -2, -1, 5, -2, 2, 4, -1, 4],
+    [7, 1, 10, -9, 0, -3, 4, 0, -12, 14, 11, 4],
+    [-6, -2, -5, 7, 3, 3, -6, 1, 1, -4, -5, -5],
+    [5, 2, 8, -7, -1, -2, 5, -1, -4, 8, 4, 4],
+];
+
 fn run_scenario_once(s: &Scenario, threads: Option<usize>, flag: Option<Arc<loom::sync::atomic::AtomicBool>>, polls_after: Arc<AtomicU64>) -> Res {
+    if let Some(which) = s.n.strip_prefix("detz:") {
+        // determinants known by construction (sympy): 30 and 42
+        let (rows, want): (Vec<Vec<(u32, i32)>>, i64) = if which == "8" {
+            (M8.iter().map(|r| r.iter().enumerate().filter(|(_, &x)| x != 0).map(|(j, &x)| (j as u32, x)).collect()).collect(), 30)
+        } else {
+            (M12.iter().map(|r| r.iter().enumerate().filter(|(_, &x)| x != 0).map(|(j, &x)| (j as u32, x)).collect()).collect(), 42)
+        };
+        let pool = threads.map(|t| yamaquasi::verif_shim::ThreadPoolBuilder::new().num_threads(t).build().ok().unwrap());
+        let m = yamaquasi::matrix::intsparse::SparseMat::new(rows);
+        let d = m.detz(pool.as_ref());
+        let ok = d.to_string() == want.to_string();
+        // encode: the determinant's decimal digits as a Uint when right, otherwise Err-like marker
+        return if ok { Res::Ok(vec![Uint::from_str(&want.to_string()).unwrap()]) } else { Res::Ok(vec![Uint::ZERO, Uint::from_str(&d.unsigned_abs().to_string()).unwrap_or(Uint::ZERO)]) };
+    }
+    if s.n.starts_with('-') {
+        let d = yamaquasi::Int::from_str(s.n).unwrap();
+        let mut prefs = Preferences::default();
+        prefs.verbosity = Verbosity::Silent;
+        prefs.threads = threads;
+        prefs.use_double = s.use_double;
+        let pool = threads.map(|t| yamaquasi::verif_shim::ThreadPoolBuilder::new().num_threads(t).build().ok().unwrap());
+        return match yamaquasi::classgroup::classgroup(&d, &prefs, pool.as_ref()) {
+            Some(g) => Res::Ok(cls_result(&g)),
+            None => Res::Err,
+        };
+    }
     let n = Uint::from_str(s.n).unwrap();
     let mut prefs = Preferences::default();
     prefs.verbosity = Verbosity::Silent;
@@ -233,7 +325,8 @@ fn child_main(args: &[String]) -> i32 {
     let expected = expected.lock().unwrap().clone().unwrap();
     REF_RELS.store(RELS_PUBLISHED.load(Ordering::SeqCst) as u64, Ordering::SeqCst);
     println!("REFERENCE {} rels={}", res_str(&expected), REF_RELS.load(Ordering::SeqCst));
-    let n = Uint::from_str(s.n).unwrap();
+    let is_cls = s.n.starts_with('-') || s.n.starts_with("detz:");
+    let n = if is_cls { Uint::ZERO } else { Uint::from_str(s.n).unwrap() };
     // 2. exhaustive exploration within the preemption bound
     let mut b = loom::model::Builder::new(); // honours LOOM_CHECKPOINT_FILE / _INTERVAL
     b.preemption_bound = Some(pb);
@@ -272,6 +365,7 @@ fn child_main(args: &[String]) -> i32 {
         // oracle
         let mut bad: Option<String> = None;
         match &r {
+            Res::Ok(_) if is_cls => {}
             Res::Ok(v) => {
                 let prod = v.iter().fold(Uint::ONE, |a, b| a * *b);
                 if prod != n {
@@ -447,7 +541,7 @@ fn master(ctx: &Ctx) -> Report {
     let mut rep = Report::new("model_checking");
     let exe = std::env::current_exe().unwrap();
     let all = scenarios();
-    let mine: Vec<Scenario> = all.into_iter().filter(|s| s.prop == ctx.id).collect();
+    let mine: Vec<Scenario> = all.into_iter().filter(|s| s.prop.split(' ').any(|p| p == ctx.id)).collect();
     // (scenario, pb, cap seconds)
     let mut jobs: Vec<(String, usize, u64)> = vec![];
     for s in &mine {
